@@ -364,7 +364,8 @@ func Check(c Case) *kit.Violation {
 		}))
 	}
 	var h http.Handler
-	if v := kit.Guard("middleware.NewContext/RoutesHandler", func() { h = middleware.NewContext(doc, api, nil).RoutesHandler(nil) }); v != nil {
+	var mctx *middleware.Context
+	if v := kit.Guard("middleware.NewContext/RoutesHandler", func() { mctx = middleware.NewContext(doc, api, nil); h = mctx.RoutesHandler(nil) }); v != nil {
 		return v
 	}
 	if c.LateResponder {
@@ -596,6 +597,50 @@ func Check(c Case) *kit.Violation {
 		}
 		if want := "[" + normType(ct) + "]" + payload; body != want {
 			return kit.Failf("PRODUCER %s; want body %q: what the producer registered for the announced type writes", desc, want)
+		}
+	}
+	return respondOnOneRoute(c, mctx)
+}
+
+// respondOnOneRoute: a caller that looked an operation's route up once answers several requests with it through the
+// exported Context.Respond, each request asking for another of the declared types: every answer is written by the
+// producer of the type it announces. (r7)
+func respondOnOneRoute(c Case, mctx *middleware.Context) *kit.Violation {
+	for i, op := range c.Ops {
+		method := strings.ToUpper(op.Method)
+		status, ok := op.lowest2xx()
+		offers, _ := c.declared(i)
+		if !ok || status == http.StatusNoContent || method == http.MethodHead || len(offers) < 2 {
+			continue
+		}
+		target := fmt.Sprintf("/p%d", i)
+		if op.Param {
+			target += "?n=7"
+		}
+		var route *middleware.MatchedRoute
+		var found bool
+		if v := kit.Guard("Context.LookupRoute", func() { route, found = mctx.LookupRoute(httptest.NewRequest(method, target, nil)) }); v != nil {
+			return v
+		}
+		if !found || route == nil {
+			return kit.Failf("ONE-ROUTE: the route of %s %s is not found", method, target)
+		}
+		asked := append(append([]string{}, offers...), offers[0])
+		for k, o := range asked {
+			req := httptest.NewRequest(method, target, nil)
+			req.Header.Set("Accept", normType(o))
+			rec := httptest.NewRecorder()
+			if v := kit.Guard("Context.Respond", func() { mctx.Respond(rec, req, route.Produces, route, "V") }); v != nil {
+				return v
+			}
+			ct := rec.Result().Header.Get("Content-Type")
+			if rec.Code != status {
+				continue // negotiated differently than asked (types that differ in parameters only): judged by the main loop
+			}
+			if want := "[" + normType(ct) + "]V"; rec.Body.String() != want {
+				return kit.Failf("ONE-ROUTE-PRODUCER %s %s (produces %q), answer %d of a series of Context.Respond calls with one looked-up route, Accept %q: Content-Type %q, body %q; want body %q: what the producer registered for the announced type writes",
+					method, target, offers, k+1, normType(o), ct, clip(rec.Body.String()), want)
+			}
 		}
 	}
 	return nil
